@@ -14,7 +14,7 @@ def determinise(ck):
 
 
 def gen_texts(ck, maxcore, nsim, keep):
-    r = ck.tlc("LexTextGen", constants={"MaxCore": maxcore, "PairSeps": 3 if maxcore <= 2 else 6}, count=False, timeout=1800)
+    r = ck.tlc("LexTextGen", constants={"MaxCore": maxcore, "PairSeps": 3 if maxcore <= 2 else 6, "LongStarts": 4 if maxcore <= 2 else 12}, count=False, timeout=1800)
     if not r.ok:
         raise vp.Infra("LexTextGen failed:\n" + r.out[-2000:])
     gen = os.path.join(ck.work, "tla", "gen_texts.ndjson")
